@@ -164,6 +164,31 @@ def oracle_props(ck, rng):
         r_b = zl_.align(xs + np.float32(off), (2.0, 2.0, 2.0))
         if np.abs(np.round(r_b.shift) - am_b).max() > 0 and np.abs(r_b.shift - am_b).max() > 0.55:
             fails.append(f"zncc landscape-offset-argmax: landscape max at {am_b.tolist()} but align reports {np.round(r_b.shift, 2).tolist()}")
+        # NCC on a bright background (its landscape pads with the sub-volume mean): the maximum lies where alignment reports it
+        bg = float(rng.choice([2.0, 10.0])) * float(np.abs(t).max())
+        nl_ = NCCAlignment(t + np.float32(bg))
+        xb = xs + np.float32(bg)
+        l_n = np.asarray(nl_.landscape(xb, (2.0, 2.0, 2.0)))
+        am_n = np.array(np.unravel_index(np.argmax(l_n), l_n.shape)) - (np.array(l_n.shape) // 2)
+        r_n = nl_.align(xb, (2.0, 2.0, 2.0))
+        if np.abs(np.round(r_n.shift) - am_n).max() > 0 and np.abs(r_n.shift - am_n).max() > 0.55:
+            fails.append(f"ncc landscape-background: landscape max at {am_n.tolist()} but align reports {np.round(r_n.shift, 2).tolist()} (background {bg:.2f})")
+        # one model object scoring several orientations in turn (with a wedge): every score is that of a fresh model, and the
+        # template still scores 1 against itself afterwards
+        if tilt:
+            zt = ZNCCAlignment(t, mask, **kw)
+            qs = Rotation.random(4, random_state=int(rng.integers(0, 2**31))).as_quat()
+            seq = [float(zt.score(x, q_, p)) for q_ in qs]
+            fresh = [float(ZNCCAlignment(t, mask, **kw).score(x, q_, p)) for q_ in qs]
+            self_after = float(zt.score(t, qs[0], p))
+            if np.abs(np.array(seq) - np.array(fresh)).max() > 1e-4 or abs(self_after - 1) > 1e-3:
+                fails.append(f"zncc call-history: scores {np.round(seq, 4).tolist()} on one model vs {np.round(fresh, 4).tolist()} on fresh models; "
+                             f"template against itself afterwards {self_after:.4f}")
+            nt = NCCAlignment(t, mask, **kw)
+            seqn = [float(nt.score(x, q_, p)) for q_ in qs]
+            freshn = [float(NCCAlignment(t, mask, **kw).score(x, q_, p)) for q_ in qs]
+            if np.abs(np.array(seqn) - np.array(freshn)).max() > 1e-4:
+                fails.append("ncc call-history: scores on one model differ from fresh models")
         ck.oracle_count("score_semantics", 1, 1)
         for f in fails:
             ck.violation(what=f, inp=c, key={"site": "semantics", "law": f.split(":")[0].split(" ")[0] + " " + (f.split(" ")[1] if " " in f else "")},
